@@ -85,6 +85,54 @@ func normValue(v *parser.ConstValue) {
 	}
 }
 
+// reconcile: where the original holds a double and the re-read AST an integer literal that
+// converts to exactly that double, the re-read value is replaced by the original's (the
+// property allows a double to be re-read as an integer literal of equal value; beyond 2^53
+// the shortest decimal spelling of a double is an integer that is not the double's exact
+// integer value but still converts to it).
+func reconcileValue(o, b *parser.ConstValue) {
+	if o == nil || b == nil || o.TypedValue == nil || b.TypedValue == nil {
+		return
+	}
+	if o.Type == parser.ConstType_ConstDouble && b.Type == parser.ConstType_ConstInt && o.TypedValue.Double != nil && b.TypedValue.Int != nil {
+		if float64(*b.TypedValue.Int) == *o.TypedValue.Double {
+			d := *o.TypedValue.Double
+			b.Type = parser.ConstType_ConstDouble
+			b.TypedValue = &parser.ConstTypedValue{Double: &d}
+		}
+		return
+	}
+	for i := range o.TypedValue.List {
+		if i < len(b.TypedValue.List) {
+			reconcileValue(o.TypedValue.List[i], b.TypedValue.List[i])
+		}
+	}
+	for i := range o.TypedValue.Map {
+		if i < len(b.TypedValue.Map) {
+			reconcileValue(o.TypedValue.Map[i].Key, b.TypedValue.Map[i].Key)
+			reconcileValue(o.TypedValue.Map[i].Value, b.TypedValue.Map[i].Value)
+		}
+	}
+}
+
+func reconcileAST(o, b *parser.Thrift) {
+	for i := range o.Constants {
+		if i < len(b.Constants) {
+			reconcileValue(o.Constants[i].Value, b.Constants[i].Value)
+		}
+	}
+	os, bs := o.GetStructLikes(), b.GetStructLikes()
+	for i := range os {
+		if i < len(bs) {
+			for j := range os[i].Fields {
+				if j < len(bs[i].Fields) {
+					reconcileValue(os[i].Fields[j].Default, bs[i].Fields[j].Default)
+				}
+			}
+		}
+	}
+}
+
 func normAST(t *parser.Thrift) {
 	for _, c := range t.Constants {
 		normValue(c.Value)
@@ -162,6 +210,7 @@ func (c *ctx) roundTrip(family, text string, withSem bool) {
 		return
 	}
 	a1, a2 := r1.ast, r2.ast
+	reconcileAST(a1, a2)
 	normAST(a1)
 	normAST(a2)
 	if p, w := idlast.Diff(a1, a2, skip); p != "" {
@@ -350,7 +399,7 @@ func main() {
 	run.Set("literal_strings", map[string]any{"alphabet": alpha, "max_len": maxLen, "strings": len(strs), "positions": len(holes), "documents": len(jobs)})
 
 	// 4. doubles
-	for _, d := range []string{"0.5", "1.5e3", "2E-2", "1e300", "1e-7", "-0.0", "3.0", "123456789.125", "1e18", "1e19", "9.223372036854775807e18", "-1e30", ".5", "5e-324"} {
+	for _, d := range []string{"0.5", "1.5e3", "2E-2", "1e300", "1e-7", "-0.0", "3.0", "123456789.125", "1e18", "1e19", "9.223372036854775807e18", "-1e30", ".5", "5e-324", "-9.223372036854775808e18", "9223372036854774784.0", "-9223372036854774784.0", "-1e19", "4503599627370497.5", "1e15", "-1e16", "1.7976931348623157e308"} {
 		c.roundTrip("double:"+d, "const double d = "+d+"\nstruct S { 1: double f = "+d+" }\n", true)
 	}
 	// 5. ids and argument / throws lists
